@@ -58,7 +58,7 @@ Spellings == <<
   <<97, 98, 99>>, <<97, 32, 98>>, <<50, 48, 48, 49, 45, 49, 50, 45, 49, 52>>, <<49, 58, 51, 48>>,
   <<233>>, <<26085, 26412>>
 >>
-Styles == {"plain", "single", "double"}
+Styles == {"plain", "single", "double", "literal", "folded", "tag-str", "tag-int", "tag-float"}
 
 \* intrinsic function short forms: single-value and sequence-value forms (rules/mod.rs)
 SingleTags == << <<82,101,102>>, <<66,97,115,101,54,52>>, <<83,117,98>>, <<71,101,116,65,90,115>>,
